@@ -2,6 +2,7 @@
 From Coq Require Import NArith List Bool Arith.
 From DBG Require Import Spec.Dna Packed.KmerModel Packed.ExtsModel Proofs.ListFacts Proofs.DnaFacts Proofs.KmerLanes
   Proofs.KmerOps Proofs.KmerDefaults Proofs.ExtsProofs.
+From DBG Require Packed.ExtsMini Proofs.ExtsBridge.
 Import ListNotations.
 Open Scope N_scope.
 
@@ -72,3 +73,22 @@ Print Assumptions C12_exts_rc.
 Print Assumptions C12_exts_rc_involutive.
 Print Assumptions C12_exts_set.
 Print Assumptions C12_exts_num_unique.
+
+(* ---- the two executable models of Exts agree (end of session 4).  Packed/ExtsMini.v is the small model used by the
+   filter / pipeline models (C04-C06), Packed/ExtsModel.v the full one (this property, C01-C03, C09); both are compared
+   with the real code on every run, and they are the same function on every extension byte (sweeps over all 256 bytes /
+   65 536 pairs, lifted by forallb_forall - finite by the type u8). *)
+Theorem C12_exts_models_agree_unary : forall x, x < 256 ->
+  ExtsMini.ex_rc x = e_rc x /\ ExtsMini.ex_complement x = e_complement x /\ ExtsMini.ex_reverse x = e_reverse x /\
+  forall d, ExtsMini.ex_dir_bits x d = e_dir_bits x d /\ ExtsMini.ex_bases x d = e_get x d /\
+    forall b, b < 4 -> ExtsMini.ex_has x d b = e_has_ext x d b /\ e_set x d b = Some (ExtsMini.ex_set x d b).
+Proof. exact ExtsBridge.exts_models_agree_unary. Qed.
+Theorem C12_exts_models_agree_binary : forall x y, x < 256 -> y < 256 ->
+  ExtsMini.ex_merge x y = e_merge x y /\ ExtsMini.ex_add x y = e_add x y.
+Proof. exact ExtsBridge.exts_models_agree_binary. Qed.
+Theorem C12_exts_models_agree_mk : forall b, b < 4 ->
+  e_mk_left b = Some (ExtsMini.ex_mk_left b) /\ e_mk_right b = Some (ExtsMini.ex_mk_right b).
+Proof. exact ExtsBridge.exts_models_agree_mk. Qed.
+Print Assumptions C12_exts_models_agree_unary.
+Print Assumptions C12_exts_models_agree_binary.
+Print Assumptions C12_exts_models_agree_mk.
